@@ -45,12 +45,39 @@ TAffine == /\ Consume /\ Ev.ev = "adapt_affine"
 TUndefined == /\ Consume /\ Ev.ev = "adapt_events" /\ broken[Ev.v]
               /\ UNCHANGED vars
 
-TraceNext == TEvents \/ TSlice \/ TAffine \/ TUndefined
+\* the formulation's column map was (re)built: no change of the declaration state; the logged map is judged by ColMapOK
+TRuleVar == /\ Consume /\ Ev.ev = "rule_var"
+            /\ UNCHANGED vars
+
+TraceNext == TEvents \/ TSlice \/ TAffine \/ TUndefined \/ TRuleVar
 TraceSpec == TraceInit /\ [][TraceNext]_tvars
+
+\* C13 on the logged column map (code -> spec): for every traced variable, two scenarios share the static column of an
+\* entry / the slope column of (entry, component) exactly when the declaration state TLC tracked puts them in the
+\* same event; slopes exist exactly for the declared dependencies; no two distinct things share a column
+DeclPairs(v) == {p \in (1..Sizes[v]) \X Comp : p[2] \in declMask[v][p[1]]}
+RuleVarOK(e) ==
+    LET TV == {v \in 1..Len(e.static) : ~broken[v]} IN
+    /\ \A v \in TV :
+          /\ \A s, t \in Scen : \A i \in 1..Sizes[v] :
+                (e.static[v][s + 1][i] = e.static[v][t + 1][i]) <=> SameEvent(ea[v], s, t)
+          /\ \A s \in Scen : {<<q[1], q[2]>> : q \in Rng(e.slopes[v][s + 1])} = DeclPairs(v)
+          /\ \A s, t \in Scen : \A k \in 1..Len(e.slopes[v][s + 1]) :
+                (e.slopes[v][s + 1][k][3] = e.slopes[v][t + 1][k][3]) <=> SameEvent(ea[v], s, t)
+    /\ \A v, w \in TV : \A s, t \in Scen :
+          /\ \A i \in 1..Sizes[v], j \in 1..Sizes[w] :
+                (e.static[v][s + 1][i] = e.static[w][t + 1][j]) => (v = w /\ i = j)
+          /\ \A k \in 1..Len(e.slopes[v][s + 1]), m \in 1..Len(e.slopes[w][t + 1]) :
+                (e.slopes[v][s + 1][k][3] = e.slopes[w][t + 1][m][3]) => (v = w /\ k = m)
+          /\ \A i \in 1..Sizes[v], m \in 1..Len(e.slopes[w][t + 1]) : e.static[v][s + 1][i] # e.slopes[w][t + 1][m][3]
+ColMapOK == (l > 1 /\ Traces[tid][l - 1].ev = "rule_var" /\ Traces[tid][l - 1].out = "ok") => RuleVarOK(Traces[tid][l - 1])
 
 Accepted == (l = Len(Traces[tid]) + 1) => PrintT(<<"ACCEPT", tid>>)
 Progress == PrintT(<<"AT", tid, l>>)
-IdealOnTrace == (IsPartition /\ SharedIffSameEvent /\ ColsInjective /\ MaskExact /\ IllegalRaises /\ LegalAccepted)
-                \/ PrintT(<<"IDEAL-VIOLATED", tid, l - 1,
-                            [partition |-> IsPartition, mask |-> MaskExact, illegal |-> IllegalRaises, legal |-> LegalAccepted]>>)
+\* which ideal clause fails, as one short token per clause (a long record would be wrapped over several output lines)
+IdealCode == (IF IsPartition /\ SharedIffSameEvent /\ ColsInjective THEN "" ELSE "partition ")
+             \o (IF MaskExact THEN "" ELSE "mask ") \o (IF IllegalRaises THEN "" ELSE "illegal-accepted ")
+             \o (IF LegalAccepted THEN "" ELSE "legal-rejected ") \o (IF ColMapOK THEN "" ELSE "colmap ")
+IdealOnTrace == (IsPartition /\ SharedIffSameEvent /\ ColsInjective /\ MaskExact /\ IllegalRaises /\ LegalAccepted /\ ColMapOK)
+                \/ PrintT(<<"IDEAL-VIOLATED", tid, l - 1, IdealCode>>)
 =============================================================================
